@@ -784,6 +784,38 @@ for _ in range(40 if Q else 600):
         p.rays = random_rays(p)
     do_path_reverse(p, "random")
 
+# image-sized ray sets (tens of elements x thousands of pixels: more than 2^16 rays; counts that are not multiples of a power
+# of two), C- and Fortran-ordered: the reversed rays are the same rays travelled backwards, and reversing twice gives the rays
+# back (the definitions above, evaluated with numpy only: too large for the coqc comparison)
+import arim.geometry as _g  # noqa: E402
+for big_i in range(2 if Q else 8):
+    n_, m_ = [(32, 2501), (17, 4099), (64, 1031), (3, 70001)][big_i % 4]
+    nwall_ = int(rng.integers(5, 60))
+    mk_ = lambda k, nm: c.Interface(*_g.default_oriented_points(_g.Points(rng.standard_normal((k, 3)), nm)))
+    p_big = c.Path((mk_(n_, "A"), mk_(nwall_, "W"), mk_(m_, "B")), (MATS[0], MATS[1]), (c.Mode.L, c.Mode.L), name="big")
+    times_ = rng.integers(1, 1000, size=(n_, m_)).astype(float)
+    interior_ = rng.integers(0, nwall_, size=(1, n_, m_)).astype(arim.settings.INT)
+    if big_i % 2 == 1:
+        times_, interior_ = np.asfortranarray(times_), np.asfortranarray(interior_)
+    p_big.rays = arim.ray.Rays(times_, interior_, arim.ray.FermatPath.from_path(p_big))
+    ec1, rp1 = call(p_big.reverse)
+    ec2, rp2 = call(rp1.reverse) if ec1 == 0 else (1, None)
+    evaluations += 2
+    chk.count(path_reverse_image_sized=f"{n_}x{m_} rays, {'F' if big_i % 2 else 'C'}-ordered")
+    nontrivial.add(("prev-big", n_, m_))
+    why_ = None
+    if ec1 != 0 or ec2 != 0:
+        why_ = f"Path.reverse raised (error codes {ec1}, {ec2})"
+    elif not (np.array_equal(np.asarray(rp1.rays.times), times_.T) and np.array_equal(np.asarray(p_big.rays.indices), np.swapaxes(np.asarray(rp1.rays.indices), 1, 2)[::-1])):
+        why_ = "the once-reversed rays are not the same rays travelled backwards"
+    elif not (np.array_equal(np.asarray(rp2.rays.times), times_) and np.array_equal(np.asarray(rp2.rays.indices), np.asarray(p_big.rays.indices))):
+        bad_cols = np.flatnonzero(np.any(np.asarray(rp2.rays.times) != times_, axis=0))
+        why_ = f"reversing twice does not give the rays back (first wrong column of the times: {bad_cols[:1].tolist()} of {m_})"
+    if why_:
+        chk.violation("path:rays-image-sized", f"Path.reverse on a path with {n_} x {m_} rays: {why_}",
+                      {"first_set": n_, "last_set": m_, "wall_points": nwall_, "order": "F" if big_i % 2 else "C",
+                       "rays": "times = integers 1..999, interior indices uniform; regenerated by seed and tier"}, failing_input_found=True)
+
 PRT = "zpath * option zrays * (Z * zpath * option zrays * list zmat)"
 DUMMY = cpair("[]", "[]", "[]", "[]")
 
